@@ -66,6 +66,19 @@ def programs(seed, count):
                 else:
                     ops.append("D")
             progs.append(",".join(ops))
+        if rnd.random() < 0.3:
+            # dead-sibling family: a key that was emptied before the threads start sits next to live ones, so that a
+            # shrink can erase it while a notify / exists / depth of another thread is walking the same parent
+            par = rnd.choice(["a", "b"])
+            pre = ["S%s/a#1" % par, "S%s/b#2" % par, "S%s#3" % par, "U%d" % rnd.choice([1, 2])]
+            nid = 4
+            progs = []
+            readers = ["N%s/r:.*" % par, "Nr:.*/r:.*", "E%s/r:.*" % par, "D", "N%s" % par]
+            for w in range(rnd.randrange(2, 5)):
+                ops = []
+                for _ in range(rnd.randrange(1, 4)):
+                    ops.append(rnd.choice(readers) if rnd.random() < 0.6 else rnd.choice(["Hr:.*/r:.*", "H%s/r:.*" % par, "Hr:.*"]))
+                progs.append(",".join(ops))
         sched = "seed=%d" % rnd.randrange(1, 2 ** 31)
         if rnd.random() < 0.35:
             sched += " pct=%d len=%d" % (rnd.randrange(1, 4), rnd.randrange(20, 120))
